@@ -47,12 +47,13 @@ class Expression:
 
     def argumentize(self, out, flags):
         func, params = self.functionalize(out, flags, is_generator=True)
+        # The function takes the standard parameters, then any free variables.
         cutoff = 3 if flags.uses_context else 2
-        if len(params) <= 3:
+        if len(params) <= cutoff:
             return func
         else:
             _ParseFunction = Code('_ParseFunction')
-            value = _ParseFunction(func, tuple(params[2:]), ())
+            value = _ParseFunction(func, tuple(params[cutoff:]), ())
             return out.var('arg', value)
 
     def constantize(self):
